@@ -131,7 +131,7 @@ def r_expand(repo, rep):
   if len(rets) != 1:
     rep.undecided('R1/dedup', f.name, 'expected one return', f.loc())
     return
-  rv = rets[0].ast.value
+  rv = rd.expand(rets[0], rets[0].ast.value)[0]      # look through locals: unique = set(days); return list(unique)
   inner = _dedups(mod, rv)
   loops = [n for n in g.nodes if n.kind == 'for']
   if inner is None:
@@ -182,7 +182,13 @@ def r_expand(repo, rep):
   wvar = norm(loop.ast.target)
   n_dr = 0
   for a in accs:
-    for call in au.calls_in(a.ast):
+    val = a.ast.value if isinstance(a.ast, (ast.AugAssign, ast.Assign, ast.Expr)) else a.ast
+    root = rd.expand(a, val, keep=(wvar, accname))[0]      # look through locals naming the expanded days
+    for x_ in ast.walk(root):
+      for ch_ in ast.iter_child_nodes(x_):
+        ch_._parent = x_
+    root._parent = None
+    for call in au.calls_in(root):
       ln = au.lib_name(mod, call.func)
       if ln in ('pandas.date_range', 'pandas.bdate_range', 'pandas.period_range'):
         n_dr += 1
@@ -209,7 +215,7 @@ def r_expand(repo, rep):
                   'date_range call %s: %s' % (norm(call), '; '.join(bad)), f.loc(call))
         # post-processing of the range must not drop elements
         par = getattr(call, '_parent', None)
-        while par is not None and par is not a.ast:
+        while par is not None:
           if isinstance(par, ast.Subscript):
             rep.violation('R2/closed-daily-range', f.qualname, norm(par), 'the expanded range is sliced (%s): days are dropped' % norm(par), f.loc(par))
           par = getattr(par, '_parent', None)
@@ -262,25 +268,37 @@ def r_find(repo, rep):
   # arity dispatch for every path (one iteration) that appends a window
   n_paths = 0
   for a in sorted(accs, key=lambda n: n.lineno):
-    calls = [c for c in au.calls_in(a.ast) if norm(c.func).endswith('TimeWindow')]
-    rep.check(len(calls) == 1, 'R4/parse', 'appended element is built by TimeWindow (ordering guard applies)', f.qualname, norm(a.ast)[:100],
-              'the appended element is not constructed through TimeWindow, so reversed ranges are not rejected', f.loc(a.ast))
-    if len(calls) != 1:
-      continue
-    tw = calls[0]
-    args = [au.arg(tw, 0, 'first_day'), au.arg(tw, 1, 'last_day')]
-    if any(x is None for x in args):
-      rep.undecided('R4/parse', 'TimeWindow arguments', norm(tw), f.loc(tw))
-      continue
     paths = pathcond.paths_to(g, lambda n: n is a, src=loop, back_limit=0,
                               edge_ok=lambda x, y, lab: lab != 'exc' and not (x is loop and lab == 'exhausted'))
     for p in paths:
       pf = pathcond.PathFacts(p, rd, keep=(param, entry))
       if not pf.feasible:
         continue
+      # the appended element on this path: the call itself, or the last definition on the path of the appended local
+      at = a
+      calls = [c for c in au.calls_in(a.ast) if norm(c.func).endswith('TimeWindow')]
+      if not calls:
+        appended = [c.args[0] for c in au.calls_in(a.ast) if isinstance(c.func, ast.Attribute) and c.func.attr == 'append' and len(c.args) == 1]
+        if isinstance(a.ast, ast.AugAssign):
+          v_ = a.ast.value
+          appended = [v_.elts[0]] if isinstance(v_, ast.List) and len(v_.elts) == 1 else []
+        if len(appended) == 1 and isinstance(appended[0], ast.Name) and appended[0].id in pf.env:
+          d_, _env = pf.env[appended[0].id]
+          if d_.how == 'assign' and isinstance(d_.value, ast.Call) and norm(d_.value.func).endswith('TimeWindow'):
+            calls, at = [d_.value], d_.node
+      if len(calls) != 1:
+        rep.violation('R4/parse', f.qualname, norm(a.ast)[:100],
+                      'the appended element is not constructed through TimeWindow, so reversed ranges are not rejected', f.loc(a.ast))
+        continue
+      rep.ok('R4/parse', 'appended element is built by TimeWindow (ordering guard applies)', loc=f.loc(calls[0]))
+      tw = calls[0]
+      args = [au.arg(tw, 0, 'first_day'), au.arg(tw, 1, 'last_day')]
+      if any(x is None for x in args):
+        rep.undecided('R4/parse', 'TimeWindow arguments', norm(tw), f.loc(tw))
+        continue
       n_paths += 1
       rep.analysed['paths'] += 1
-      exp = [norm(rd.expand(a, x, keep=(param, entry))[0]) for x in args]
+      exp = [norm(rd.expand(at, x, keep=(param, entry))[0]) for x in args]
       # parts container: <entry>.split('-')
       import re
       idx = []
@@ -297,7 +315,7 @@ def r_find(repo, rep):
         joined = ' '.join(exp)
         for x_ in args:
           for nm_ in [y_ for y_ in ast.walk(x_) if isinstance(y_, ast.Name)]:
-            for d_ in rd.defs_at(a, nm_.id):
+            for d_ in rd.defs_at(at, nm_.id):
               if d_.value is not None:
                 joined += ' ' + norm(rd.expand(d_.node, d_.value, keep=(param, entry))[0])
         if re.search(r"\.(r?partition)\('-'\)|\.r?split\('-', (1|maxsplit=1)\)", joined):
@@ -308,15 +326,24 @@ def r_find(repo, rep):
           rep.undecided('R4/parse', 'TimeWindow(%s, %s)' % tuple(exp), 'arguments are not parts of entry.split("-")', f.loc(tw))
         continue
 
-      def arity_lit(k):
-        def pred(e, t):
-          s = norm(e)
-          return t and s in ('len(%s) == %d' % (base, k), '%d == len(%s)' % (k, base))
-        return pred
-      if pf.every_case_has(arity_lit(1)):
+      def arity_is(k):
+        """On this path the number of parts is k: tested directly, or one of (1, 2) with the other excluded."""
+        other = 3 - k
+        for conj in pf.dnf:
+          forms = set()
+          for e_, t_ in conj:
+            forms |= pathcond.rel_forms(e_, t_)
+          direct = 'len(%s) == %d' % (base, k) in forms
+          both = any(x in forms for x in ('len(%s) in (1, 2)' % base, 'len(%s) in (2, 1)' % base, 'len(%s) in [1, 2]' % base, 'len(%s) in {1, 2}' % base))
+          bounded = ('len(%s) <= 2' % base in forms or 'len(%s) < 3' % base in forms)
+          excl = 'len(%s) != %d' % (base, other) in forms
+          if not (direct or ((both or bounded) and excl)):
+            return False
+        return bool(pf.dnf)
+      if arity_is(1):
         good = idx in ([0, 0], [0, -1], [-1, -1], [-1, 0])
         want = 'a single day d gives the window (d, d)'
-      elif pf.every_case_has(arity_lit(2)):
+      elif arity_is(2):
         good = idx in ([0, 1], [0, -1], [-2, -1], [-2, 1])
         want = 'a range "a - b" gives the window (a, b) in that order'
       else:
@@ -339,19 +366,20 @@ def r_timewindow(repo, rep):
   g = cfgmod.CFG(f.node)
   selfn = f.params[0]
   guards = []
+  rd_ = dataflow.Reaching(g)
   for n in g.nodes:
     if n.kind == 'test':
-      t = norm(n.expr)
-      if t in ('%s.first_day > %s.last_day' % (selfn, selfn), '%s.last_day < %s.first_day' % (selfn, selfn)):
+      ex = rd_.expand(n, n.expr)[0]
+      want_rel = '%s.first_day > %s.last_day' % (selfn, selfn)
+      if want_rel in pathcond.asserted_forms(ex, True):
         branch = 'true'
-      elif t in ('%s.first_day <= %s.last_day' % (selfn, selfn), '%s.last_day >= %s.first_day' % (selfn, selfn),
-                 'not %s.first_day > %s.last_day' % (selfn, selfn)):
+      elif want_rel in pathcond.asserted_forms(ex, False):
         branch = 'false'
       else:
         continue
       guards.append((n, branch))
   if not guards:
-    weak = [n for n in g.nodes if n.kind == 'test' and 'first_day' in norm(n.expr) and 'last_day' in norm(n.expr)]
+    weak = [n for n in g.nodes if n.kind == 'test' and 'first_day' in norm(rd_.expand(n, n.expr)[0]) and 'last_day' in norm(rd_.expand(n, n.expr)[0])]
     if weak:
       rep.violation('R4/ordering-guard', f.qualname, norm(weak[0].expr),
                     'the ordering test `%s` is not "first_day > last_day": reversed ranges pass or single days are rejected' % norm(weak[0].expr), f.loc(weak[0].expr))
